@@ -446,7 +446,8 @@ def run_case(case):
         env.emit("note", "schedule_periodic", "main")
         try:
             env.handle = sch.schedule_periodic(period, env.action, case["st0"])
-        except Exception as e:
+        except (Exception, DriverError, Cap, Abort) as e:
+            # DriverError: e.g. the loop ran inside the call (on the calling thread) and reached the controlled wait
             r.error = f"schedule_periodic raised {type(e).__name__}: {e}"[:300]
         if r.error is None:
             if case.get("d0"):
